@@ -150,8 +150,15 @@ def judge_accept(ctx: Ctx, pipe_list, md, tag, kind_defaults=True):
     direct = {"pipeline": {n: copy.deepcopy(c) for n, c in frozen["pipeline"].items()}}
     direct_before = copy.deepcopy(direct)
     m = PandoraMachine()
+    # 'inf' / '-inf' strings are turned into floats by check_pipeline_section / check_conf only (update_conf); the
+    # machine-level entry point is not promised to read them
+    strings = any(v in ("inf", "-inf") for c in direct["pipeline"].values() for v in c.values() if isinstance(v, str))
     try:
+        if strings:
+            raise StopIteration
         m.check_conf(direct, md[0], md[1])
+    except StopIteration:
+        pass
     except Exception as exc:  # noqa: BLE001
         ctx.violation("C05/in-domain-value-rejected", f"{tag} (PandoraMachine.check_conf): {type(exc).__name__}: {str(exc)[:120]}")
     else:
